@@ -87,7 +87,7 @@ def run_one(mod, run_seed, replay=None, lenient=False, keep_trace=False, variant
     res["choices"] = sim.choices.sparse()
     res["sched"] = hashlib.sha1(repr(res["choices"]).encode()).hexdigest()[:16]
     if keep_trace:
-        res["trace_tail"] = [repr(e) for e in sim.history[-60:]]
+        res["trace_tail"] = [repr(e) for e in sim.history[-int(os.environ.get("VERIF_TRACE_TAIL") or 60):]]
         if getattr(sim, "line_log", None) is not None:
             res["line_log"] = sim.line_log[-int(os.environ.get("VERIF_TRACE_LINES") or 200):]
     sim.history = []
@@ -462,7 +462,7 @@ def main(argv):
             print("VIOLATION property=%s replay=%s" % (rp["property"], argv[1]))
             print("  fingerprint: %s" % " | ".join(rp["fingerprint"]))
             print("  message: %s" % r["message"])
-            for l in r.get("trace_tail", [])[-25:]:
+            for l in r.get("trace_tail", [])[-int(os.environ.get("VERIF_TRACE_TAIL") or 25):]:
                 print("    " + l)
             for l in r.get("line_log", []):
                 print("    L " + l)
